@@ -39,7 +39,7 @@ def generate(rng, seed, index, tier):
             kw["scaling_type"] = "Custom"
             kw["scaling"] = {"var": rng.integers(-2, 3, size=spec["n"]).tolist(), "cons": rng.integers(-2, 3, size=spec["m"]).tolist(), "obj": int(rng.integers(-1, 2))}
         return gen.base_world(seed, ID, index, spec, x0, y0, kw, clock=gen.gen_clock(rng, n=500), obs=gen.silent_obs(), solver="integration")
-    kw = gen.gen_params(rng, spec, x0, y0, p_knob=0.5, reporting=True)
+    kw = gen.gen_params(rng, spec, x0, y0, p_knob=0.5, reporting=True, numeric=0.2)
     kw["iteration_limit"] = int(rng.choice([150, 400]))
     if rng.random() < 0.2:
         kw["opt_tol"] = float(rng.choice([1e-4, 1e-8]))
